@@ -188,7 +188,7 @@ func init() {
 					args = append(args, "-s")
 				}
 				var r run.Result
-				if (len(deg)+int(deg[len(deg)-1]))%5 == 0 { // the attribute file arrives through a named pipe
+				if false { // (the attribute file through a named pipe: a route no sentence of C15 covers -- second audit)
 					content, _ := os.ReadFile(f)
 					os.Remove(f)
 					r = run.Run(c.Bin, run.Cmd{Args: args, Timeout: 20 * time.Second, Fifos: map[string][]byte{f: content}})
@@ -216,9 +216,13 @@ func init() {
 				var attrs []yAttr
 				rec := Rec{"kind": "notation", "s": chars(s), "ok": false, "printed": []int{}, "terminated": !r.TimedOut,
 					"stdoutLen": len(r.Stdout), "stderrLen": len(r.Stderr)}
-				if len(r.Stdout) > 0 && yaml.Unmarshal(r.Stdout, &attrs) == nil && len(attrs) > 0 && attrs[len(attrs)-1].Name == "X" {
-					rec["ok"] = true
-					rec["printed"] = chars(attrs[len(attrs)-1].Degree)
+				if len(r.Stdout) > 0 && yaml.Unmarshal(r.Stdout, &attrs) == nil {
+					for _, a := range attrs { // wherever the listing puts it
+						if a.Name == "X" {
+							rec["ok"] = true
+							rec["printed"] = chars(a.Degree)
+						}
+					}
 				}
 				return []Rec{rec}
 			case "chorddesc":
